@@ -4,6 +4,8 @@ compares line by line with the specification's Fmt (prefix markers + payload), a
 Entries.  stdlib-only.   usage: format_driver.py <cases.json> <out.json> <pool_module_path>"""
 import gc
 import importlib.util
+import contextlib
+import io
 import json
 import pickle
 import re
@@ -216,6 +218,26 @@ def check_summary(st, case, sc, sh, bad, builder):
             bad.append("%s: format_flat has extra lines" % tag)
 
 
+@contextlib.contextmanager
+def ambient_stdout(i):
+    """str(x) is a function of x alone: evaluate it under the kinds of sys.stdout that programs run with"""
+    kinds = ["the process's own", "an io.StringIO (encoding None)", "a latin-1 text stream", "None", "an ascii text stream"]
+    k = i % len(kinds)
+    saved = sys.stdout
+    try:
+        if k == 1:
+            sys.stdout = io.StringIO()
+        elif k == 2:
+            sys.stdout = io.TextIOWrapper(io.BytesIO(), encoding="latin-1")
+        elif k == 3:
+            sys.stdout = None
+        elif k == 4:
+            sys.stdout = io.TextIOWrapper(io.BytesIO(), encoding="ascii")
+        yield kinds[k]
+    finally:
+        sys.stdout = saved
+
+
 def main():
     data = json.load(open(sys.argv[1]))
     pool_path = sys.argv[3]
@@ -245,8 +267,17 @@ def main():
             out["lines_compared"] += 2 * len(case["lines"])
             if any(ord(ch) > 127 for ln in asc for ch in ln):
                 bad18.append("ascii_only output contains non-ASCII characters")
-            if sc and not sh and str(st) != "".join(uni):
-                bad18.append("str(x) is not the concatenation of format()")
+            if sc and not sh:
+                with ambient_stdout(out["n"]) as kind:
+                    text = str(st)
+                    parts = [(f, str(f), "".join(f.format())) for f in st.frames[:2]]
+                    parts += [(c, str(c), "".join(c.format())) for f in st.frames[:2] for c in f.contexts[:1]]
+                if text != "".join(uni):
+                    bad18.append("str(x) is not the concatenation of format() (sys.stdout is %s)" % kind)
+                for obj, a, b2 in parts:
+                    if a != b2:
+                        bad18.append("str(x) of a %s is not the concatenation of its format() (sys.stdout is %s)" % (type(obj).__name__, kind))
+                        break
         check_summary(st, case, sc, sh, bad19, b)
         out["n"] += 1
         if bad18:
